@@ -250,6 +250,12 @@ class Interp:
                 v = self.record_at(env, p)
                 if v is not None:
                     return v
+                al = env.get(("$alias", p[0]))
+                if al is not None:
+                    # `x = a.b` with nothing known then: whatever is learnt about a.b later holds for x
+                    v = self.record_at(env, al[1] + p[1:])
+                    if v is not None:
+                        return v
             if isinstance(e, ast.Attribute):
                 ec = self.enum_value(e, fi)
                 if ec is not None:
@@ -393,6 +399,8 @@ class Interp:
             if isinstance(op, (ast.Is, ast.IsNot, ast.Eq, ast.NotEq)):
                 positive = isinstance(op, (ast.Is, ast.Eq)) == branch
                 for pe, ce in ((left, right), (right, left)):
+                    if isinstance(pe, ast.NamedExpr):
+                        pe = pe.target
                     p = self.path_of(pe)
                     cv = self.ev(ce, env, cfg)
                     if p is None or cv is None or cv[0] not in ("c", "e"):
@@ -402,19 +410,31 @@ class Interp:
                         continue
                     if len(p) > 1 and not self.client.refine_attr(p[-1]):
                         continue
+                    al = env.get(("$alias", p[0]))
                     if positive:
                         new = dict(env)
                         self._assign(new, p, cv)
                     elif cv == ("c", None) and cur is None:
                         new = dict(env)
                         self._assign(new, p, ("nn",))
+                    if new is not None and al is not None:
+                        ap = al[1] + p[1:]
+                        if self.client.refine_attr(ap[-1]) or len(ap) == 1:
+                            self._assign(new, ap, new.get(p, cv if positive else ("nn",)))
+                            new[("$alias", p[0])] = al
                     break
-        elif isinstance(cond, (ast.Name, ast.Attribute)):
+        elif isinstance(cond, (ast.Name, ast.Attribute, ast.NamedExpr)):
+            if isinstance(cond, ast.NamedExpr):
+                cond = cond.target
             p = self.path_of(cond)
             cur = self.ev(cond, env, cfg)
             if p is not None and (cur is None or cur == ("nn",)) and (len(p) == 1 or self.client.refine_attr(p[-1])):
+                al = env.get(("$alias", p[0]))
                 new = dict(env)
                 self._assign(new, p, ("tr",) if branch else ("fa",))
+                if al is not None and (len(al[1] + p[1:]) == 1 or self.client.refine_attr((al[1] + p[1:])[-1])):
+                    self._assign(new, al[1] + p[1:], ("tr",) if branch else ("fa",))
+                    new[("$alias", p[0])] = al
         return new if new is not None else env
 
     # ================================================================== env updates
@@ -422,6 +442,9 @@ class Interp:
         n = len(path)
         for p in [p for p in env if p[:n] == path]:
             del env[p]
+        if not is_temp(path):
+            for k in [k for k, v in env.items() if k[0] == "$alias" and ((n == 1 and k[1] == path[0]) or v[1][:n] == path or path[: len(v[1])] == v[1])]:
+                del env[k]
 
     def _kill(self, env: dict, path: Path) -> None:
         self._clear(env, path)
@@ -532,7 +555,7 @@ class Interp:
             dead = [
                 p
                 for p, v in env.items()
-                if p[0] not in params and ((v == KILL) or (not is_temp(p) and p[0] not in lv))
+                if p[0] not in params and ((v == KILL) or (not is_temp(p) and p[0] not in lv) or (p[0] == "$alias" and (p[1] not in lv or (v[1][0] not in lv and v[1][0] not in params))))
             ]
             if dead:
                 env = dict(env)
@@ -579,7 +602,13 @@ class Interp:
                 else:
                     for t in node.info["targets"]:
                         self._assign_target(env2, t, val, cfg)
-                self._drop_temps(env2)
+                    src = node.info["value"]
+                    if val is None and len(node.info["targets"]) == 1 and isinstance(node.info["targets"][0], ast.Name) and isinstance(src, ast.Attribute):
+                        sp = self.path_of(src)
+                        if sp is not None and sp[0] != node.info["targets"][0].id and (sp[0] in params or sp[0] in self.prog.func_locals(fi)):
+                            env2[("$alias", node.info["targets"][0].id)] = ("al", sp)
+                if not isinstance(node.ast, ast.NamedExpr):
+                    self._drop_temps(env2)  # a walrus sits inside a larger expression: its temporaries stay live
                 go(node, env2, cs2, w)
             elif k == "test":
                 cond = node.info["cond"]
